@@ -43,15 +43,11 @@ theorem modifyAt_id {α : Type} (l : List α) (i : Nat) : modifyAt l i (fun a =>
 
 /-! ### the invariant -/
 
-def notifiesFor (js : JS) (k : Nat) : List Notify :=
-  match grantedSid js k with
-  | some s => js.seen.filter (fun n => n.hdrs.sid == some s)
-  | none => []
-
 /-- every service holds what the NOTIFYs received so far for its granted SID leave, in arrival order -/
 def SvcsInv (decls : List (List Decl)) (js : JS) (svcs : List Svc) : Prop :=
   svcs.length = decls.length ∧
-  ∀ i ds s, decls[i]? = some ds → svcs[i]? = some s → valsOf s = ideal ds (notifiesFor js i)
+  ∀ i ds s, decls[i]? = some ds → svcs[i]? = some s →
+    valsOf s = ideal ds (notifiesFor js i) ∧ s.events.length = (notifiesFor js i).length
 
 structure Inv (decls : List (List Decl)) (s : St) (js : JS) : Prop where
   pendNodup : (keys s.pending).Nodup
@@ -259,9 +255,9 @@ theorem inv_notify (decls : List (List Decl)) (hd : ∀ ds ∈ decls, declsWF ds
           subst h2
           have hv := inv.svcs.2 j ds sv0 h1 h3
           have hds : declsWF (declsOf sv0) := by
-            rw [declsOf_of_inv hv]; exact hd ds (List.mem_of_getElem? h1)
-          rw [if_pos ⟨(hgr j).mpr rfl, rfl⟩, ideal_snoc, ← hv]
-          exact valsOf_notifyChanged sv0 hds n.body hb tick
+            rw [declsOf_of_inv hv.1]; exact hd ds (List.mem_of_getElem? h1)
+          rw [if_pos ⟨(hgr j).mpr rfl, rfl⟩, ideal_snoc, ← hv.1]
+          exact ⟨valsOf_notifyChanged sv0 hds n.body hb tick, by simp [notifyChanged, hv.2]⟩
       · have : ¬ (grantedSid js j = some sid ∧ (some sid).isSome = true) := fun ⟨e', _⟩ => e ((hgr j).mp e')
         rw [if_neg this]
         rw [frame_other _ _ _ _ (Ne.symm e)] at h2
@@ -355,6 +351,13 @@ theorem valsOf_foldl (items : List Notify) (hb : ∀ n ∈ items, bodyWF n.body 
     simp only [List.foldl_cons]
     rw [ih (fun m hm => hb m (List.mem_cons_of_mem _ hm)) _ (by rw [notifyChanged_decls]; exact hds)]
     rw [valsOf_notifyChanged sv hds n.body (hb n List.mem_cons_self) tick]
+
+theorem events_foldl (items : List Notify) (sv : Svc) (tick : Nat) :
+    (items.foldl (fun sv n => notifyChanged sv (changesOf n.body) tick) sv).events.length
+      = sv.events.length + items.length := by
+  induction items generalizing sv with
+  | nil => rfl
+  | cons n r ih => simp only [List.foldl_cons, ih, List.length_cons]; simp [notifyChanged]; omega
 
 theorem pend_erase (s : St) (js : JS) (hn : (keys s.pending).Nodup)
     (hp : ∀ i, (get? s.pending i).isSome = js.pend.contains i) (svc : Nat) :
@@ -488,13 +491,13 @@ theorem inv_respond_grant (decls : List (List Decl)) (hd : ∀ ds ∈ decls, dec
         subst hj2
         have hv := inv.svcs.2 j ds sv0 hj1 h3
         have hds : declsWF (declsOf sv0) := by
-          rw [declsOf_of_inv hv]; exact hd ds (List.mem_of_getElem? hj1)
-        rw [valsOf_foldl _ hbw sv0 hds tick, hv]
+          rw [declsOf_of_inv hv.1]; exact hd ds (List.mem_of_getElem? hj1)
+        rw [valsOf_foldl _ hbw sv0 hds tick, hv.1, events_foldl, hv.2]
         have hgj := grantedSid_append_self js
           { js with pend := js.pend.filter (· != j), granted := js.granted ++ [(j, x)] } j x rfl hsvc
         simp only [notifiesFor, hgs, hitems]
         rw [hgj]
-        rfl
+        exact ⟨rfl, by simp⟩
     · rw [frame_other _ _ _ _ (Ne.symm e)] at hj2
       have := inv.svcs.2 j ds sv hj1 hj2
       have hgj := grantedSid_append_other js
